@@ -3,8 +3,15 @@ package main
 import (
 	"bufio"
 	"bytes"
+	"crypto/ecdsa"
+	"crypto/elliptic"
+	"crypto/rand"
+	"crypto/tls"
+	"crypto/x509"
+	"crypto/x509/pkix"
 	"fmt"
 	"io"
+	"math/big"
 	"os"
 	"os/exec"
 	"runtime"
@@ -13,6 +20,8 @@ import (
 	"sync"
 	"time"
 
+	"github.com/ProtonMail/gluon"
+
 	"verifharness/srv"
 )
 
@@ -20,7 +29,16 @@ import (
 // "ADDR host:port" and serves until its stdin is closed. A panic inside gluon kills this process, which the parent
 // observes as an exit status.
 func childMain() {
-	s, err := srv.Start(srv.Options{})
+	opts := srv.Options{}
+	if len(os.Args) > 2 && os.Args[2] == "tls" {
+		cfg, err := selfSignedTLS()
+		if err != nil {
+			fmt.Println("ERR", err)
+			os.Exit(2)
+		}
+		opts.ExtraOptions = append(opts.ExtraOptions, gluon.WithTLS(cfg))
+	}
+	s, err := srv.Start(opts)
 	if err != nil {
 		fmt.Println("ERR", err)
 		os.Exit(2)
@@ -93,9 +111,29 @@ func (t *tailBuf) crashHead() string {
 	return s
 }
 
-func startChild() (*child, error) {
+// selfSignedTLS makes a throw-away certificate so that the server advertises and accepts STARTTLS.
+func selfSignedTLS() (*tls.Config, error) {
+	key, err := ecdsa.GenerateKey(elliptic.P256(), rand.Reader)
+	if err != nil {
+		return nil, err
+	}
+	tmpl := &x509.Certificate{SerialNumber: big.NewInt(1), Subject: pkix.Name{CommonName: "localhost"},
+		NotBefore: time.Now().Add(-time.Hour), NotAfter: time.Now().Add(24 * time.Hour),
+		KeyUsage: x509.KeyUsageDigitalSignature, ExtKeyUsage: []x509.ExtKeyUsage{x509.ExtKeyUsageServerAuth}, DNSNames: []string{"localhost"}}
+	der, err := x509.CreateCertificate(rand.Reader, tmpl, tmpl, &key.PublicKey, key)
+	if err != nil {
+		return nil, err
+	}
+	return &tls.Config{Certificates: []tls.Certificate{{Certificate: [][]byte{der}, PrivateKey: key}}, MinVersion: tls.VersionTLS12}, nil
+}
+
+func startChild(tlsMode bool) (*child, error) {
 	c := &child{stderr: &tailBuf{}, done: make(chan struct{}), lines: make(chan string, 16)}
-	c.cmd = exec.Command(os.Args[0], "-child")
+	if tlsMode {
+		c.cmd = exec.Command(os.Args[0], "-child", "tls")
+	} else {
+		c.cmd = exec.Command(os.Args[0], "-child")
+	}
 	c.cmd.Stderr = c.stderr
 	in, err := c.cmd.StdinPipe()
 	if err != nil {
